@@ -383,6 +383,9 @@ glue_plain! { #[kani::unwind(6)] fn g_fold_k2_drop() { g_fold(2, 3, END_DROP); }
 glue_plain! { #[kani::unwind(6)] fn g_fold_k2_close_dispatch_stop() { g_fold(2, 3, END_CLOSE_DISPATCH_STOP); } }
 glue_plain! { #[kani::unwind(6)] fn g_fold_k0_drop() { g_fold(0, 1, END_DROP); } }
 glue_plain! { #[kani::unwind(7)] fn g_fold_k3_drop() { g_fold(3, 4, END_DROP); } }
+glue_plain! { #[kani::unwind(7)] fn g_fold_k3_close_stop() { g_fold(3, 4, END_CLOSE_STOP); } }
+glue_plain! { #[kani::unwind(7)] fn g_fold_k3_close_dispatch_stop() { g_fold(3, 4, END_CLOSE_DISPATCH_STOP); } }
+glue_plain! { #[kani::unwind(6)] fn g_fold_k1_drop() { g_fold(1, 2, END_DROP); } }
 
 
 // -----------------------------------------------------------------------------------------
@@ -623,6 +626,12 @@ race_harness! {
     s_race_b1_loop_notify = (1, rt::P_PHASE_NOTIFY, 0, 0, 0);
     s_race_b1_loop_recv1 = (1, hk::RECV, 0, 1, 1);
     s_race_b1_loop_taken1 = (1, hk::TAKEN, 0, 1, 0);
+    // backlog of two
+    s_race_b2_close_sent = (2, hk::SENT, 0, 0, 1);
+    s_race_b2_join = (2, hk::JOIN, 0, 0, 0);
+    s_race_b2_loop_taken1 = (2, hk::TAKEN, 0, 1, 2);
+    s_race_b2_loop_notify1 = (2, rt::P_PHASE_NOTIFY, 1, 0, 1);
+    s_race_b2_loop_recv2 = (2, hk::RECV, 0, 2, 0);
 }
 
 // -----------------------------------------------------------------------------------------
